@@ -5,6 +5,24 @@ import json, subprocess
 CLAIMED = {
  "C01": ("7 C01", "Seeded search over generated multi-thread programs (roots, children, multi-parent spans, local scopes, hand-off between threads, thread exit right after a finish) in the default configuration, every interleaving of ring pushes, thread exits and the steps of collector cycles/flush() chosen by the simulator; oracle: exactly-once matching against the reference model, delivery by every flush() that happens-after the finish, delivery within 2 report intervals of quiet simulated time.",
          "rtrb/parking_lot internals trusted (serialised execution, no weak-memory effects); clock and id stubs; the reference model is the specification; permitted omissions are taken from the hook log (ring full) exactly as C09 allows."),
+ "C02": ("7 C02", "Seeded search over generated well-scoped programs (deep local nesting, nested local-parent scopes, 1..n parents across and within traces, finish in any order on any thread), collector cycles placed atomically at every queue operation and pre-emptively; oracle: every delivered record matches one expected (trace id, span, parent) of the reference model, ids non-zero and pairwise distinct, multi-parent spans delivered once per parent.",
+         "as C01; parent ids are learned from delivered records and extracted contexts, never predicted."),
+ "C03": ("7 C03", "Seeded search in cancelable mode over programs whose spans finish on arbitrary warmed threads before the root (ordered by real hand-off happens-before) under all scheduling policies including pre-emption inside the drain; oracle per trace: nothing reported before the root's finish was invoked, exactly one report call holds the root, every span that finished before the root is in that same call, nothing afterwards. Violations explained by a cross-ring cut inversion (exactly computed from the consumption log) are the known finding D2; anything else fails the check.",
+         "as C01; record-to-trace attribution through the reference model; losses to a full ring exempt exactly as logged."),
+ "C04": ("7 C04", "Seeded search over programs that cancel roots at arbitrary points from any thread, with tiny rings (cancel/commit parked), both configurations, 35% atomic cycles; oracle: a cancelled trace never appears in any report call; every other trace (and every trace in the default configuration) is delivered completely, including attachments (differential against the same script without the cancel, via the reference model).",
+         "as C01; a cancel lost because its thread exited while the ring was still full is exempt (C09 keeps signals only while the thread lives)."),
+ "C05": ("7 C05", "Seeded search over programs mixing sampled and unsampled roots with descendants through every propagation path; oracle: no record ever matches an unsampled trace, every record matches a sampled expectation, contexts extracted anywhere carry the model's trace id and sampled flag, mixed-parent spans are delivered in their sampled parents' traces.",
+         "as C01."),
+ "C06": ("7 C06", "Seeded search over programs attaching properties/events through every route with arbitrary UTF-8 strings (incl. 64 KiB), 75% atomic cycles placed between attachment and finish, both configurations; oracle: safety on every delivered record under all schedules (attributable, unaltered, not duplicated, per-route per-thread order) and, under atomic cycles and the property's proviso, presence exactly once on every copy. Multi-parent-same-trace targets are the known finding D8.",
+         "as C01; presence is only demanded under atomic cycles (the property's stated quantifier), see DESIGN §4 rule 2."),
+ "C08": ("7 C08", "Seeded search over long histories of trace starts/finishes/cancels and thread births/exits in both configurations with pre-emptive drains; oracle at every quiescent cut (all roots finished or cancelled, two flushes): active collectors, buffered sets and parked attachments are 0 and the receiver count lies between the live registered threads bounds. Leaks explained by a cross-ring cut inversion are the known finding D2.",
+         "as C01; collector state is read through the cfg-gated collector_stats() hook."),
+ "C10": ("7 C10", "Seeded search over well-nested scope sequences to depth 12 on up to 3 threads with current_local_parent() probed throughout; oracle: every probe equals the reference model's answer (per-thread state only), parents of subsequently created spans and targets of local attachments equal the model's through the delivered records, local operations without a scope leave no record.",
+         "as C01; this property has no fault dimension, simulation contributes the program quantifier and the cross-thread frame condition under interleaving."),
+ "C11": ("7 C11", "Seeded search over programs extracting contexts at arbitrary points (any nesting, multi-parent, no-op, unsampled) and creating remote children from them directly or through a traceparent round trip on any thread; oracle: returned contexts equal the model's (trace id, identified span, sampled) or None, and the remote child is delivered in that trace under that span.",
+         "as C01."),
+ "C16": ("7 C16", "Seeded search with the enable feature on over non-recording handles (roots before a reporter exists, spans derived from no-op spans, local operations without a local parent) given counting property closures; oracle: closure invocation counts equal the model's (0 for non-recording, exactly 1 for recording), no record for non-recording handles, elapsed/from_span/current_local_parent None for them. The enable-less build is checked separately (see DESIGN).",
+         "as C01; for unsampled recording handles 0 or 1 invocation is accepted (the property does not speak about them)."),
 }
 NOT_APPLICABLE = {
  "C12": "Pure function of one string / one SpanContext: no thread, clock, I/O, fault or interleaving for a simulator to control; input generation alone would be property-based testing, a different technique family (DESIGN §8).",
